@@ -69,6 +69,9 @@ def gen_spec(rng: np.random.Generator, tier: str, hermitian: bool = True, **forc
         near_deg=bool(rng.random() < 0.3),
         symbolic=bool(rng.random() < 0.35),
         sparse_kind=str(rng.choice(["array", "array", "matrix"])),
+        int_h0=bool(rng.random() < 0.2),
+        int_all=bool(rng.random() < 0.5),
+        real_pert=bool(rng.random() < 0.3),
         offset=int(rng.choice([0, 0, 0, 8192])),
     )
     if spec["vtype"] == "sympy" and spec["design"] == "indices" and rng.random() < 0.35:
@@ -96,6 +99,10 @@ def normalise(spec: dict, thorough: bool = False) -> dict:
             spec["design"] = "indices"
         if spec["complex"] and (N > 4 or spec["design"] == "vectors"):
             spec["complex"] = False  # sympy does not expand products of Gaussian rationals: exponential swell
+    if spec.get("int_h0") and (spec["vtype"] == "sympy" or spec["design"] == "vectors" or (spec["complex"] and not spec["hermitian"])):
+        spec["int_h0"] = spec["int_all"] = False  # integer dtype only survives for real numeric H_0 given by indices / pre-split blocks
+    if not spec.get("int_h0") or spec["complex"]:
+        spec["int_all"] = False
     if spec.get("offset") and spec["design"] == "vectors" and spec["vtype"] != "sympy":
         # rotating a float H_0 of size ~1e4 leaves rounding noise above the library's absolute atol=1e-12
         spec["design"] = "indices"
@@ -112,7 +119,7 @@ def normalise(spec: dict, thorough: bool = False) -> dict:
 
 def signature(spec: dict) -> list:
     return [
-        spec["hermitian"], spec["nblocks"], sorted(spec["sizes"]), spec["n_par"], spec["vtype"] + ("-spmatrix" if spec["vtype"] == "sparse" and spec.get("sparse_kind") == "matrix" else ""), spec["complex"], bool(spec.get("offset")), bool(spec.get("near_deg")),
+        spec["hermitian"], spec["nblocks"], sorted(spec["sizes"]), spec["n_par"], spec["vtype"] + ("-spmatrix" if spec["vtype"] == "sparse" and spec.get("sparse_kind") == "matrix" else ""), spec["complex"], bool(spec.get("offset")), bool(spec.get("near_deg")), bool(spec.get("int_h0")), bool(spec.get("int_all")), bool(spec.get("real_pert")),
         spec["sel"], spec["design"], spec["container"], spec["extra_orders"], spec["degenerate"], spec["max_total"],
     ]
 
@@ -147,10 +154,12 @@ def _rand_entry(rng, cplx):
     return re, im
 
 
-def _rand_matrix(rng, N, cplx, hermitian, density=0.8):
-    """Integer numerators (re, im) arrays of a random matrix with entries k/DEN."""
+def _rand_matrix(rng, N, cplx, hermitian, density=0.8, integer=False):
+    """Integer numerators (re, im) arrays of a random matrix with entries k/DEN (integer entries if requested)."""
     re = rng.integers(-2 * DEN, 2 * DEN + 1, size=(N, N))
     im = rng.integers(-2 * DEN, 2 * DEN + 1, size=(N, N)) if cplx else np.zeros((N, N), int)
+    if integer:
+        re, im = DEN * rng.integers(-3, 4, size=(N, N)), (DEN * rng.integers(-3, 4, size=(N, N)) if cplx else im)
     mask = rng.random((N, N)) < density
     re, im = re * mask, im * mask
     if hermitian:
@@ -181,12 +190,12 @@ def build(spec: dict) -> Problem:
                 levels.append(levels[0])
             elif levels and spec["degenerate"] and rng.random() < 0.45:
                 levels.append(levels[int(rng.integers(0, len(levels)))])
-            elif levels and spec.get("near_deg") and rng.random() < 0.4:
+            elif levels and spec.get("near_deg") and not spec.get("int_h0") and rng.random() < 0.4:
                 # a level split by only 1/16 from another level of the same block (distinct: to be
                 # eliminated when the block is fully diagonalised / masked)
                 levels.append(levels[int(rng.integers(0, len(levels)))] + 1)
             else:
-                levels.append(8 * int(pool.pop()))
+                levels.append((16 if spec.get("int_h0") else 8) * int(pool.pop()))
         E_num += levels
     if not any(E_num):
         E_num = [16] * N  # the library rejects H_0 = 0 by design: stay inside the domain
@@ -211,7 +220,7 @@ def build(spec: dict) -> Problem:
             term_orders.append(cands[int(idx)])
     nums = {}
     for o in term_orders:
-        nums[o] = _rand_matrix(rng, N, cplx, herm_values)
+        nums[o] = _rand_matrix(rng, N, cplx and not spec.get("real_pert"), herm_values, integer=bool(spec.get("int_all")))
     z = (0,) * n_par
 
     terms_f = {z: np.diag(np.array(E_num, float) / 16 + 1j * np.array(E_im, float) / 2).astype(complex)}
@@ -369,6 +378,7 @@ def _cayley_unitary(rng, N, cplx, exact):
     return Q if cplx else Q.real
 
 
+VALUE_OPTS = {"real_if_possible": False, "int_h0": False}  # set per problem by _encode
 SPARSE_KIND = {"kind": "array"}  # set per problem by _encode: scipy sparse *_array or legacy *_matrix (spmatrix)
 
 
@@ -381,6 +391,8 @@ def _value(M_f, M_x, vtype, cplx):
     if vtype == "sympy":
         return sympy.Matrix(M_x.shape[0], M_x.shape[1], lambda i, j: _gr_to_sympy(M_x[i, j]))
     A = M_f if (cplx or np.iscomplexobj(M_f) and np.any(M_f.imag)) else M_f.real
+    if VALUE_OPTS["real_if_possible"] and np.iscomplexobj(A) and not np.any(A.imag):
+        A = A.real  # dtype mixture: real perturbation although H_0 / other terms are complex
     A = np.array(A)
     if vtype == "sparse":
         return _sp(A)
@@ -423,6 +435,7 @@ def _encode(p: Problem, rng):
     kwargs = dict(hermitian=p.hermitian)
     terms_enc = {}
     SPARSE_KIND["kind"] = spec.get("sparse_kind", "array")
+    VALUE_OPTS["real_if_possible"] = bool(spec.get("real_pert"))
     if design == "indices" and nb >= 1:
         # interleave the blocks, preserving the order inside each block
         labels = np.array(p.block_of)
@@ -499,6 +512,19 @@ def _encode(p: Problem, rng):
                     row.append(_value(sub, subx, vtype, cplx))
                 rows.append(row)
             terms_enc[o] = rows
+    if spec.get("int_h0") and not p.exact and design in ("indices", "blocks"):
+        def to_int(M):
+            if sparse.issparse(M):
+                return M.astype(np.int64) if not np.iscomplexobj(M.data) and np.all(M.data == np.round(M.data)) else M
+            M = np.asarray(M)
+            return M.astype(np.int64) if not np.iscomplexobj(M) and np.all(M == np.round(M)) else M
+
+        for o in list(terms_enc):
+            if o != z and not spec.get("int_all"):
+                continue  # int_all: the perturbation is integer-typed too (its entries are integers by construction)
+            T0 = terms_enc[o]
+            terms_enc[o] = to_int(T0) if design == "indices" else [[to_int(T0[i][j]) for j in range(nb)] for i in range(nb)]
+        p.notes["int_h0"] = True
     if spec.get("symbolic") and p.exact and design in ("indices", "blocks"):
         # free symbols in H_0 and in the perturbation: t enters every level as E + d*(t - t0) (same d inside a
         # degenerate level), s multiplies part of the perturbation as (1 + s - s0); at t = t0, s = s0 the input is
